@@ -41,6 +41,21 @@ CHECKS = {
    text="Descriptor.tla / Address.tla define the descriptor codec, both address derivations, both validators and the legacy address/validator on bytes. TLC proves (MCAddress, all 65536 leading byte pairs): the two address spaces are disjoint, decode(encode(d)) = d for all field values, derived XMSS addresses are XMSS-valid and Dilithium-invalid, Dilithium addresses are Dilithium-valid and XMSS-invalid for every value of their second byte. Conformance: complete tables of the real parser/printer/validators over all 65536 prefixes x 3 third bytes and all 16x16x32x16 constructor inputs; address derivations for real keys and random public keys with SHAKE-256/SHA-256 digests computed by the harness with the standard library; legacy validity on valid addresses, all their 312 bit flips and random strings; each event judged by TraceAddress.tla.",
    note="Public keys are a seeded sample (they only flow into the hash).",
    technique="explicit TLA+ spec + TLC exhaustive enumeration of the descriptor space; trace validation with digests as recorded oracle values"),
+ "C04": dict(
+   level="model_checking", design_ref="6 (C04), 3.7, 7 (F1)",
+   text="XmssVerify.tla has (1) the concrete guard cascade of VerifyWithCustomWOTSParamW with WOTS parameter derivation and exact refusal texts, checked by TLC over w x length classes x descriptor nibbles (CascadeSound: a call reaches the cryptographic check iff signature type, length-derived height, descriptor height and hash function are consistent and supported), and (2) a symbolic signer/verifier over a free term algebra, for which TLC checks AcceptIffUnmodified over all single and double mutations of every component at every index, and that foreign signatures are rejected. Conformance: on genuine signatures of real keys (h=4 quick; 4,6,8 thorough; 3 hash functions; first/last/post-jump indices) every single-bit flip of signature, public key and message, all 256 values of both descriptor bytes, length changes, spliced foreign components, other index fields, and arbitrary-content triples of every length class for w in {4,16,256} are verified; TLC (TraceVerify.tla) derives from (length, w, descriptor bytes, what was touched) whether the call may be accepted and flags any other acceptance or any rejection of an unmodified triple. Finding F1 (unsupported hash id accepted) was found this way and repaired by a fix: commit.",
+   note="Rejection of flipped bits in hashed material rests on collision resistance; the full biconditional against an independent hashing verifier exists only modulo the recorded hash oracle (C06).",
+   technique="explicit TLA+ spec (concrete cascade + symbolic scheme) + TLC; trace validation of all single-bit flips and input classes on the real verifier"),
+ "C14": dict(
+   level="model_checking", design_ref="6 (C14), 3.8",
+   text="EntryPoints.tla gives, for each of the 12 entry points that take untrusted bytes, the outcome specified for an abstract input (value, or the exact refusal text: XMSS cascade, address-format refusal, descriptor size, the three mnemonic refusals including the formatted word count). TLC enumerates the abstract input classes (GenClasses.tla, spec -> code), the driver concretises each with random and structured content and adds the whole descriptor space for the address functions, Dilithium hint-section corruptions and arbitrary mnemonic byte strings; every call runs under recover with a deadline and a before/after comparison of all input buffers. TLC (TraceEntry.tla) flags any outcome that is not a value or a string refusal, any refusal by an entry point specified never to refuse (Dilithium Verify/Open, validators), any modified buffer; differences in value-vs-refusal or refusal text are reported as drift.",
+   note="Memory safety is observed through Go bounds checks (runtime.Error on the executed input); content inside a class is sampled; nil pointers are not 'bytes' and are out of scope.",
+   technique="explicit TLA+ spec of allowed outcomes + TLC-enumerated input classes replayed into the real code + trace validation"),
+ "C16": dict(
+   level="model_checking", design_ref="6 (C16), 3.8, 7 (F2)",
+   text="Wrappers.tla models the string wrappers as Core o Sized o HexDecode o Strip0x on the bytes of the argument strings; MCWrappers checks the hex codec facts for every byte value and every non-hex character. Conformance: the six pure wrappers are called on real keys/signatures ({valid, wrong message, flipped signature}) in every rendering {lower, upper} x {bare, 0x} and 13 malformed renderings per argument; each event carries what the harness fed to the core function and both results; TLC (TraceWrappers.tla) decodes the argument strings itself, checks the harness fed the core exactly that, and requires wrapper = core for exact-length hex and false/\"\" for non-hex. Finding F2 (xmssjs wrappers did not strip 0x) was found this way and repaired by a fix: commit.",
+   note="The js.Object-based constructors/methods need a JavaScript runtime and are not covered; addresses are compared as bytes (optional 0x removed).",
+   technique="explicit TLA+ spec of the wrapper composition + TLC; trace validation of wrapper-vs-core calls"),
 }
 
 NOT_YET = {
